@@ -214,17 +214,55 @@ pub fn model_from_json(m: &Value) -> Result<Model, String> {
     }
 }
 
-/// pred spec: {"model": <model json>, "tags": bool, "store": bool}
+/// pred spec: {"model": <model json>, "tags": bool, "store": bool, "serde": bool, "trail": [bytes]}
+/// With "serde" the predictor is serialised, `trail` is appended, and the predictor obtained by
+/// deserialising those bytes is returned (C14); the status then says whether the returned rest
+/// equals `trail`.
 pub fn predictor_from_json(p: &Value) -> Result<Predictor, String> {
+    predictor_from_json_rest(p).map(|x| x.0)
+}
+
+/// As above; also returns the bytes that deserialisation reported as following the predictor.
+pub fn predictor_from_json_rest(p: &Value) -> Result<(Predictor, Value), String> {
     let model = model_from_json(&p["model"])?;
     let tags = p["tags"].as_bool().unwrap_or(false);
+    #[cfg(not(feature = "tag-prediction"))]
+    let tags = {
+        let _ = tags;
+        false
+    };
     let store = p["store"].as_bool().unwrap_or(false);
+    let serde = p["serde"].as_bool().unwrap_or(false);
     match catch_unwind(AssertUnwindSafe(|| Predictor::new(model, tags))) {
-        Ok(Ok(mut pr)) => {
+        Ok(Ok(pr)) => {
+            let mut pr = pr;
+            let mut rest_out = Value::Null;
+            if serde {
+                let trail = bytes(&p["trail"]);
+                let r = catch_unwind(AssertUnwindSafe(|| {
+                    let mut data = pr.serialize_to_vec().map_err(|e| format!("err:{e}"))?;
+                    let n = data.len();
+                    data.extend_from_slice(&trail);
+                    let _ = n;
+                    let (p2, rest) = unsafe { Predictor::deserialize_from_slice_unchecked(&data) }
+                        .map_err(|e| format!("err:{e}"))?;
+                    Ok::<_, String>((p2, json!(rest)))
+                }));
+                pr = match r {
+                    Ok(Ok((p2, rest))) => {
+                        rest_out = rest;
+                        p2
+                    }
+                    Ok(Err(e)) => return Err(e),
+                    Err(_) => return Err("panic".into()),
+                };
+            }
+            #[cfg(feature = "tag-prediction")]
             if store {
                 pr.store_tag_scores(true);
             }
-            Ok(pr)
+            let _ = store;
+            Ok((pr, rest_out))
         }
         Ok(Err(e)) => Err(format!("err:{e}")),
         Err(_) => Err("panic".into()),
@@ -306,6 +344,7 @@ pub fn proj_state(s: &Sentence) -> Value {
 }
 
 pub fn proj_tokens(s: &Sentence, cands: bool) -> Value {
+    let _ = cands;
     guarded(|| {
         let limit = s.char_types().len() + 2;
         let mut out = vec![];
@@ -317,6 +356,7 @@ pub fn proj_tokens(s: &Sentence, cands: bool) -> Value {
             let surface = guarded(|| str_to_cps(t.surface()));
             let tags = guarded(|| Value::Array(t.tags().iter().map(tag_value).collect()));
             let mut o = json!({"s": t.start(), "e": t.end(), "surf": surface, "tags": tags});
+            #[cfg(feature = "tag-prediction")]
             if cands {
                 o["cands"] = guarded(|| {
                     Value::Array(
